@@ -117,6 +117,9 @@ FIXED = [
     'c11::add_chain("C11|chain|fixed-multiword-136|neg_inf|throwing|signed_char", c11::R_NEG_INF, c11::O_THROWING, 7, {{c11::LEAF, -1, -1, 72, 0}, {c11::LEAF, -1, -1, 64, 2}, {c11::MUL, 0, 1, 0, 0}, {c11::ADD, 2, 0, 0, 0}, {c11::NEG, 2, -1, 0, 0}}, '
     '[](c11::Inputs const& in, c11::Trace& tr) { auto x0 = c11::leaf<%s>(in, 0); tr.rec(x0); auto x1 = c11::leaf<%s>(in, 1); tr.rec(x1); auto x2 = x0 * x1; tr.rec(x2); auto x3 = x2 + x0; tr.rec(x3); auto x4 = -x2; tr.rec(x4); })'
     % (_sn(72, 0, _T, 'cnl::_impl::throwing_overflow_tag', 'signed char'), _sn(64, 2, _T, 'cnl::_impl::throwing_overflow_tag', 'signed char')),
+    'c11::add_chain("C11|chain|fixed-mulpred|tie_pos|trapping|short", c11::R_TIE_POS, c11::O_TRAPPING, 15, {{c11::LEAF, -1, -1, 31, -8}, {c11::LEAF, -1, -1, 1, -8}, {c11::MUL, 1, 0, 0, 0}}, '
+    '[](c11::Inputs const& in, c11::Trace& tr) { auto x0 = c11::leaf<%s>(in, 0); tr.rec(x0); auto x1 = c11::leaf<%s>(in, 1); tr.rec(x1); auto x2 = x1 * x0; tr.rec(x2); })'
+    % (_sn(31, -8, 'cnl::tie_to_pos_inf_rounding_tag', 'cnl::trapping_overflow_tag', 'short'), _sn(1, -8, 'cnl::tie_to_pos_inf_rounding_tag', 'cnl::trapping_overflow_tag', 'short')),
     'c11::add_chain("C11|chain|fixed-divbias|nearest|saturated|int", c11::R_NEAREST, c11::O_SATURATED, 31, {{c11::LEAF, -1, -1, 31, 0}, {c11::LEAF, -1, -1, 8, 0}, {c11::DIV, 0, 1, 0, 0}}, '
     '[](c11::Inputs const& in, c11::Trace& tr) { auto x0 = c11::leaf<%s>(in, 0); tr.rec(x0); auto x1 = c11::leaf<%s>(in, 1); tr.rec(x1); auto x2 = x0 / x1; tr.rec(x2); })' % (_sn(31, 0, _N, _S, 'int'), _sn(8, 0, _N, _S, 'int')),
 ]
